@@ -1,14 +1,15 @@
 #!/bin/sh
 # evaluate a behaviour-preserving rewrite (/tmp/seedB/out/<P>/patch.diff): the checks must NOT report a failing input
 P="$1"; shift
+ROOTV=$(cd "$(dirname "$0")/.." && pwd)
 PROPS="${*:-$P}"
-OUT=$(cd "$(dirname "$0")/.." && pwd)/seeded-benign/$P
+OUT=$ROOTV/seeded-benign/$P
 D=/tmp/rw/seedevalB-$P-$$
 mkdir -p /tmp/rw
 git -C /repo worktree add -q "$D" HEAD || exit 2
 ( cd "$D" && git apply "$OUT/patch.diff" ) || { echo "== $P: patch does not apply"; git -C /repo worktree remove --force "$D"; exit 2; }
 for q in $PROPS; do
-  echo "== $P (benign): ./vcheck $q: $(cd /verif && CLIKIT_REPO="$D" ./vcheck "$q" 2>&1 | grep -E "^(VIOLATION|OK |INFRA)" | cut -c1-200)"
+  echo "== $P (benign): ./vcheck $q: $(cd "$ROOTV" && CLIKIT_REPO="$D" ./vcheck "$q" 2>&1 | grep -E "^(VIOLATION|OK |INFRA)" | cut -c1-200)"
 done
 git -C /repo worktree remove --force "$D"
-( cd /verif && python3 tools/gen_lean.py >/dev/null )
+( cd "$ROOTV" && python3 tools/gen_lean.py >/dev/null )
